@@ -222,6 +222,25 @@ Theorem C13_mfdc_never_exits : forall sk P sts, so_res (mfdc_solve sk P sts) <> 
 Proof. exact mfdc_never_exits. Qed.
 Print Assumptions C13_mfdc_never_exits.
 
+(* ---------------------------------------------------------------- solve() called again on the same object *)
+Theorem C13_failed_run_leaves_no_trace : forall sk ex P sts,
+  lbk (fd_solve sk ex P sts) =
+  match lb_phase sk ex (use_mgs P) (lb0 P) (nweights P) sts with LB lb _ => lb | _ => lb0 P end.
+Proof. exact failed_run_leaves_no_trace. Qed.
+Print Assumptions C13_failed_run_leaves_no_trace.
+
+Theorem C13_resolve_is_fresh_run : forall sk ex P lb sts,
+  fd_resolve P lb None sts =
+  fd_solve sk ex (mkfd lb (upper_excl P) (nedges P) false (nweights P) (guessed P) (gw_paths P) (greedy P) (over P)) sts.
+Proof. exact resolve_is_fresh_run. Qed.
+Print Assumptions C13_resolve_is_fresh_run.
+
+Theorem C13_resolve_main_inconclusive : forall P lb sts p,
+  inconclusive_at sts p -> aux (fd_resolve P lb None sts) <= p < used (fd_resolve P lb None sts) ->
+  so_res (fd_resolve P lb None sts) = NotSolved.
+Proof. exact resolve_main_inconclusive. Qed.
+Print Assumptions C13_resolve_main_inconclusive.
+
 (* ---------------------------------------------------------------- NumPathsOptimization *)
 Theorem C13_npo_sound : forall P sts k,
   so_res (npo_solve P sts) = Solved k ->
@@ -265,6 +284,13 @@ Example C13_search_nonvacuous :
   so_res (mpc_solve true 1 2 [i_; o_]) = NotSolved /\ so_res (mpc_solve false 1 2 [i_; o_]) = Solved 2 /\
   so_res (mpc_solve false 1 2 [i_; t_]) = NotSolved.
 Proof. vm_compute. repeat split; reflexivity. Qed.
+
+(* a run that stopped with a time limit at k = 2 leaves lbk = 2; the next call starts there again *)
+Example C13_resolve_nonvacuous :
+  let P := mkfd 1 true 6 true 4 false 0 never never in
+  mfd_solve false false P [i_; o_; t_] = mkout NotSolved 3 2 2 /\
+  fd_resolve P (lbk (mfd_solve false false P [i_; o_; t_])) None [o_] = mkout (Solved 2) 1 0 2.
+Proof. vm_compute. split; reflexivity. Qed.
 
 (* NumPathsOptimization: skips unsolved k (by design) but returns only a model that was solved *)
 Example C13_npo_nonvacuous :
